@@ -2,6 +2,7 @@
 JAR=/opt/veriftools/tla/tla2tools.jar
 CM=/opt/veriftools/tla/CommunityModules-deps.jar
 setup: lib/fxov/Ov.class
+	bin/fxcheck prebuild
 lib/fxov/Ov.class: spec/java/fxov/Ov.java
 	mkdir -p lib
 	javac -nowarn -cp $(JAR):$(CM) -d lib spec/java/fxov/Ov.java
